@@ -272,6 +272,7 @@ def run(rep: Report, prog: Program, tier: str) -> None:
     for q in list(HELPERS_RET) + list(BLESSED):
         prog.func(q)
     S = Serial(prog)
+    seen_bool: Set[int] = set()
     funcs = [f for f in prog.iter_functions(MODULES + ["utils"])]
     S.propagate(funcs)
     exempt = {(r, f, norm(c)) for r, f, c, _w in EXEMPT}
@@ -376,6 +377,17 @@ def run(rep: Report, prog: Program, tier: str) -> None:
                 tests.append(n.test)
             elif isinstance(n, ast.Assert):
                 tests.append(n.test)
+            elif isinstance(n, ast.comprehension):
+                tests.extend(n.ifs)
+            elif isinstance(n, ast.UnaryOp) and isinstance(n.op, ast.Not) and id(n) not in seen_bool:
+                # `not x` / `a or b` used as a value (assigned, returned, passed on) coerce to bool just the same
+                tests.append(n)
+            elif isinstance(n, ast.BoolOp) and id(n) not in seen_bool:
+                tests.append(n)
+            for t in tests:
+                for sub in ast.walk(t):
+                    if isinstance(sub, (ast.BoolOp, ast.UnaryOp)):
+                        seen_bool.add(id(sub))
             for t in tests:
                 for leaf in _bool_leaves(t):
                     if S.k_of(leaf, fi):
